@@ -106,7 +106,12 @@ func rotateScenario(w *world) engine.Scenario {
 				c.Cover("rotate", "no-conjugate-in-ci")
 				return
 			}
-			g := w.rp.GaloisElementOrderTwoOrthogonalSubgroup()
+			// the key is generated for the element the SCHEME advertises for this operation
+			g := w.elOrderTwo()
+			if core := w.rp.GaloisElementOrderTwoOrthogonalSubgroup(); g != core {
+				c.Fail("C11/"+w.scheme+"/advertised-order-two-element-differs-from-core", "%s: scheme wrapper gives %d, rlwe.Parameters %d", w.name, g, core)
+				return
+			}
 			o := w.newOps([]uint64{g})
 			ct := w.encryptIn(re, im, coeff)
 			out := ct.CopyNew()
@@ -128,7 +133,13 @@ func rotateScenario(w *world) engine.Scenario {
 			return
 		}
 		k := ks[ki]
-		g := w.rp.GaloisElement(k)
+		// the key is generated for the element the SCHEME advertises for a rotation by k (GaloisElementForRotation /
+		// GaloisElementForColRotation); it must be the one the evaluator asks for, i.e. the core-level element of k
+		g := w.elRotation(k)
+		if core := w.rp.GaloisElement(k); g != core {
+			c.Fail("C11/"+w.scheme+"/advertised-rotation-element-differs-from-core", "%s: k=%d: scheme wrapper gives %d, rlwe.Parameters.GaloisElement %d", w.name, k, g, core)
+			return
+		}
 		o := w.newOps([]uint64{g})
 		ct := w.encryptIn(re, im, coeff)
 		wr, wi := rotRows(re, w.rowLen, k), rotRows(im, w.rowLen, k)
